@@ -147,6 +147,12 @@ class World:
 
         def from_buffer(buffer, offset=0):
             I.effects.append(Effect("child_read", name=name, pos=P(offset), buf=buffer))
+            if has_update:
+                pos = P(offset)
+                v = Obj("view", {"_buffer": buffer, "_offset": offset}, name=f"view:{name}@{key(offset)}")
+                v.tag = f"view:{name}@{key(offset)}"
+                v.attrs["_update"] = Builtin(f"{name}.view._update", lambda value: I.effects.append(Effect("view_update", name=name, pos=pos, value=value, buf=buffer)))
+                return v
             return Opaque(f"view:{name}@{key(offset)}")
 
         d.attrs["_inspect_args"] = Builtin(f"{name}._inspect_args", inspect)
